@@ -195,3 +195,37 @@ def m_dur_le(ex, a, t): return target(a[0]) <= target(a[1])
 def m_dur_eq(ex, a, t): return target(a[0]) == target(a[1])
 MODELS[:0] = [(r'^<Duration as Add>::add$', m_dur_add), (r'^<Duration as Sub>::sub$', m_dur_sub), (r'^<Duration as PartialOrd>::le$', m_dur_le),
               (r'^<Duration as PartialEq>::eq$', m_dur_eq), (r'Instant as Sub<Duration>>::sub$', m_dur_sub)]
+
+
+def _sleep_of(v):
+    while isinstance(v, Ref) or hasattr(v, 'content'):
+        v = v.lv.get() if isinstance(v, Ref) else v.content.v
+    return v
+def m_sleep_is_elapsed(ex, a, t): return ex.clock >= _sleep_of(a[0]).deadline
+def m_sleep_deadline(ex, a, t): return _sleep_of(a[0]).deadline
+def _callable(ex, f, args):
+    """apply a closure or a function item (enum constructor / dumped function) to arguments"""
+    if isinstance(f, ClosureVal): return call_closure(ex, f, args)
+    what = getattr(f, 'what', '') or ''
+    name = what.split('<')[0].rstrip(':')
+    segs = [x for x in ex.strip_generics(what).split('::') if x]
+    if len(segs) >= 2 and segs[-2] in ex.enums and segs[-1] in ex.enums[segs[-2]]: return Enum(segs[-2], segs[-1], args)
+    fn = ex.fns.get(what) or ex.resolve(ex.callee_key(what))
+    if fn is not None: return ex.run(fn, args)
+    raise Unknown('cannot call function value %r' % (what,))
+def m_opt_map_or(ex, a, t):
+    o, default, f = a
+    return _callable(ex, f, [o.f[0].v]) if o.variant == 'Some' else default
+def m_opt_map_or_else(ex, a, t):
+    o, d, f = a
+    return _callable(ex, f, [o.f[0].v]) if o.variant == 'Some' else _callable(ex, d, [])
+def m_opt_ok_or(ex, a, t):
+    return Enum('Result', 'Ok', [a[0].f[0].v]) if a[0].variant == 'Some' else Enum('Result', 'Err', [a[1]])
+def m_opt_or(ex, a, t): return a[0] if a[0].variant == 'Some' else a[1]
+def m_opt_get_or_insert(ex, a, t):
+    lv = a[0].lv; o = lv.get()
+    if o.variant != 'Some': o = Enum('Option', 'Some', [a[1]]); lv.set(o)
+    return Ref(LCell(o.f[0]))
+MODELS[:0] = [(r'(?:^|::)Sleep::is_elapsed$', m_sleep_is_elapsed), (r'(?:^|::)Sleep::deadline$', m_sleep_deadline),
+              (r'^Option::<.*>::map_or::<', m_opt_map_or), (r'^Option::<.*>::map_or_else::<', m_opt_map_or_else), (r'^Option::<.*>::ok_or::<', m_opt_ok_or),
+              (r'^Option::<.*>::or$', m_opt_or), (r'^Option::<.*>::get_or_insert$', m_opt_get_or_insert)]
